@@ -4,6 +4,7 @@ import (
 	"encoding/json"
 	"fmt"
 	"regexp"
+	"unicode/utf8"
 
 	tmbytes "github.com/tendermint/tendermint/libs/bytes"
 
@@ -840,12 +841,22 @@ func ValidateServiceDescription(svcDescription string) error {
 		return sdkerrors.Wrap(ErrInvalidDescription, fmt.Sprintf("invalid service description length; got: %d, max: %d", len(svcDescription), MaxDescriptionLength))
 	}
 
+	// text that is not valid UTF-8 does not survive the JSON form of an exported genesis
+	if !utf8.ValidString(svcDescription) {
+		return sdkerrors.Wrap(ErrInvalidDescription, "service description is not valid UTF-8")
+	}
+
 	return nil
 }
 
 func ValidateAuthorDescription(authorDescription string) error {
 	if len(authorDescription) > MaxDescriptionLength {
 		return sdkerrors.Wrap(ErrInvalidDescription, fmt.Sprintf("invalid author description length; got: %d, max: %d", len(authorDescription), MaxDescriptionLength))
+	}
+
+	// text that is not valid UTF-8 does not survive the JSON form of an exported genesis
+	if !utf8.ValidString(authorDescription) {
+		return sdkerrors.Wrap(ErrInvalidDescription, "author description is not valid UTF-8")
 	}
 
 	return nil
